@@ -19,6 +19,7 @@ import (
 
 	"github.com/yandex/pandora/examples/grpc/server"
 	"google.golang.org/grpc"
+	"google.golang.org/grpc/codes"
 	"google.golang.org/grpc/metadata"
 	"google.golang.org/grpc/reflection"
 	"google.golang.org/grpc/status"
@@ -49,6 +50,37 @@ type Srv struct {
 	rec  []Call
 	n    int64
 	refl map[string]bool // canonical application metadata of the reflection streams
+
+	// fault injection (the target's ANSWERS are not pandora's: any status may come back)
+	plan    []uint32 // answer to the i-th unary call since SetPlan (0 = handle normally)
+	planPos int
+	faultFn func(c Call) uint32 // content-keyed answer (0 = handle normally); used when no plan slot applies
+}
+
+// SetPlan makes the target answer the next unary calls, in arrival order, with the given gRPC status
+// codes WITHOUT running the handler (0 = run the handler). Calls beyond the plan are handled normally.
+func (s *Srv) SetPlan(p []uint32) {
+	s.mu.Lock()
+	s.plan, s.planPos = p, 0
+	s.mu.Unlock()
+}
+
+// SetFaultFn installs a content-keyed answer: the function sees method, message and metadata of the
+// call (Status/TimeoutS unset) and returns the status to answer with, 0 = run the handler.
+func (s *Srv) SetFaultFn(f func(c Call) uint32) {
+	s.mu.Lock()
+	s.faultFn = f
+	s.mu.Unlock()
+}
+
+// DrainReflMD returns the distinct application metadata sets seen on reflection streams since the
+// previous DrainReflMD, sorted.
+func (s *Srv) DrainReflMD() []string {
+	out := s.ReflMD()
+	s.mu.Lock()
+	s.refl = nil
+	s.mu.Unlock()
+	return out
 }
 
 // ReflMD returns the distinct application metadata sets seen on reflection streams, sorted.
@@ -188,7 +220,22 @@ func (s *Srv) intercept(ctx context.Context, req interface{}, info *grpc.UnarySe
 	if dl, ok := ctx.Deadline(); ok {
 		c.TimeoutS = int(math.Round(time.Until(dl).Seconds()))
 	}
-	resp, err := handler(ctx, req)
+	var forced uint32
+	s.mu.Lock()
+	if s.planPos < len(s.plan) {
+		forced = s.plan[s.planPos]
+		s.planPos++
+	} else if s.faultFn != nil {
+		forced = s.faultFn(c)
+	}
+	s.mu.Unlock()
+	var resp interface{}
+	var err error
+	if forced != 0 {
+		err = status.Error(codes.Code(forced), "injected by the target")
+	} else {
+		resp, err = handler(ctx, req)
+	}
 	c.Status = uint32(status.Code(err))
 	s.mu.Lock()
 	s.rec = append(s.rec, c)
